@@ -3,7 +3,7 @@ CONSTANTS
  NH = 2
  K = {0,1,8,9,16}
  V = {1}
- MaxOps = 7
+ MaxOps = 6
  NB0 = 1
  MapOps = FALSE
  HeadBug = FALSE
